@@ -50,11 +50,11 @@ func Ldexp(frac Decimal, exp int) Decimal {
 		return frac
 	}
 
-	if exp < minUnbiasedExponent {
+	if exp < -(maxBiasedExponent + maxDigits + 1) {
 		return zero(frac.Signbit())
 	}
 
-	if exp > maxUnbiasedExponent+39 {
+	if exp > maxBiasedExponent+39 {
 		return inf(frac.Signbit())
 	}
 
